@@ -87,6 +87,7 @@ def check(cfg, lines):
     inside = defaultdict(list)       # edge -> items inside (order of put)
     occ_hist = defaultdict(list)     # edge -> [(t, occupancy after the last event of instant t)], increasing t
     last_t = 0
+    withdrawn = []                   # granted requests withdrawn (OBS cputg / cgetg), until the node moves an item
     held = defaultdict(list)         # node -> items held
     got_by = {}                      # item -> node that pulled it last
     disc_count, recv_count = Counter(), Counter()
@@ -113,7 +114,10 @@ def check(cfg, lines):
         if k == "OBS":
             # end-of-instant observer of the harness: a request still waiting although the edge could serve it
             _, t, ed, what, nq, nfree = e
-            if what == "occ":
+            if what in ("cputg", "cgetg"):
+                # a granted request withdrawn in this instant: remembered until the node's next movement
+                withdrawn.append((t, ed, what))
+            elif what == "occ":
                 v("C03", "edge %d at the end of instant %s holds %d item(s), %d went in through its put and have not come out through its get" % (ed, t, nq, nfree))
             elif what == "put":
                 v("C10", "edge %d at the end of instant %s: %d space request(s) waiting while %d slot(s) are free and unreserved" % (ed, t, nq, nfree))
@@ -170,6 +174,13 @@ def check(cfg, lines):
                     if ecfg[e2]["kind"] == "buffer" and top + slack < ecfg[e2]["cap"]:
                         v("C15", "non-blocking node %d (FIRST_AVAILABLE) pushed item %d to out-edge %d at %s although the lower-index out-edge %d held at most %d of %d in that instant" %
                           (src, i, ed, t, e2, top, ecfg[e2]["cap"]))
+            if ncfg[src]["outsel"][0] == "FA" and ncfg[src]["blocking"]:
+                for (tw, ew, ww) in withdrawn:
+                    if ww == "cputg" and tw == t and src_of_edge.get(ew) == src and ew in ncfg[src]["outs"] and ed in ncfg[src]["outs"] \
+                            and ncfg[src]["outs"].index(ew) < ncfg[src]["outs"].index(ed):
+                        v("C15", "node %d (FIRST_AVAILABLE) withdrew its GRANTED space request on out-edge %d and pushed item %d to the higher-index out-edge %d at %s" %
+                          (src, ew, i, ed, t))
+            withdrawn[:] = [x for x in withdrawn if not (x[2] == "cputg" and src_of_edge.get(x[1]) == src)]
             place[i] = ("edge", ed)
             inside[ed].append(i)
             if occ_hist[ed] and occ_hist[ed][-1][0] == t:
@@ -201,6 +212,13 @@ def check(cfg, lines):
                     v("C14", "item %d left fleet edge %d at %s, less than a round trip (2 x %s) after it was loaded at %s" %
                       (i, ed, t, ecfg[ed]["transit"], t_put[i][-1][0]))
             dst = dst_of_edge[ed]
+            if ncfg[dst]["insel"][0] == "FA" and ncfg[dst]["kind"] in ("machine", "splitter", "sink"):
+                for (tw, ew, ww) in withdrawn:
+                    if ww == "cgetg" and tw == t and dst_of_edge.get(ew) == dst and ew in ncfg[dst]["ins"] and ed in ncfg[dst]["ins"] \
+                            and ncfg[dst]["ins"].index(ew) < ncfg[dst]["ins"].index(ed):
+                        v("C15", "node %d (FIRST_AVAILABLE) withdrew its GRANTED retrieval request on in-edge %d and took item %d from the higher-index in-edge %d at %s" %
+                          (dst, ew, i, ed, t))
+            withdrawn[:] = [x for x in withdrawn if not (x[2] == "cgetg" and dst_of_edge.get(x[1]) == dst)]
             L = level[ed]
             L[0] += L[2] * (t - L[1]); L[1] = t; L[2] = len(inside[ed])
             if ncfg[dst]["kind"] == "sink":
@@ -270,8 +288,8 @@ def check(cfg, lines):
         if int(nd["recv"]) != recv_count[n]:
             v("C18", "sink %d reports %s received, %d receptions happened" % (n, nd["recv"], recv_count[n]))
         pushed = sum(1 for i in t_put for (t, ed) in t_put[i] if src_of_edge[ed] == n)
-        if kind == "machine" and int(nd["procd"]) != pushed:
-            v("C18", "machine %d reports %s processed, %d items were pushed downstream" % (n, nd["procd"], pushed))
+        if kind in ("machine", "splitter", "combiner") and int(nd["procd"]) != pushed:
+            v("C18", "%s %d reports %s processed, %d items were pushed downstream" % (kind, n, nd["procd"], pushed))
         if kind == "sink" and abs(float(nd["cycle"]) - cycle[n]) > 1e-6:
             v("C18", "sink %d reports total cycle time %s, sum over received items is %s" % (n, nd["cycle"], cycle[n]))
         # ---- C17: totals non-negative and partition T
@@ -375,6 +393,9 @@ def check(cfg, lines):
             v("C10", "edge %d: %d granted retrieval reservation(s) of %s %d left unused at the end of the run" % (ed, getres, ncfg[dst]["kind"], dst))
         if ready and ncfg[dst]["kind"] == "sink":
             v("C10", "edge %d: item(s) %s available to sink %d were not taken" % (ed, ready, dst))
+            if getres:
+                v("C03", "edge %d: item(s) %s are available to sink %d, which is idle, but held by %d granted retrieval request(s) nobody will use: "
+                         "they can never be received or discarded" % (ed, ready, dst, getres))
         if ready and ncfg[dst]["kind"] == "machine" and ncfg[dst]["insel"][0] == "FA" and len(held[dst]) < ncfg[dst]["wcap"] \
                 and nodes.get(dst, {}).get("tstate") and T > ncfg[dst]["setup"]:
             v("C10", "edge %d: item(s) %s available to machine %d which holds %d < work_capacity %d items" %
